@@ -250,3 +250,13 @@ pub proof fn lemma_response_wellformed(b: Base, q: ReqView, h: binary::RequestHe
     assert(enc32(0).len() == 4);
     assert(enc64(0).len() == 8);
 }
+
+// always true; trigger for existentials over an optional response (see is_resp)
+pub open spec fn is_opt_resp(r: Option<BinaryResponse>) -> bool { true }
+
+// what the decoder hands over is what the handler expects (kind selected by the opcode, key at most 250 bytes)
+pub proof fn lemma_decoded_req_wf(x: BinaryRequest, h: binary::RequestHeader, b: Seq<u8>) // @ob C10,C12 lemma.decoded_req_wf
+    requires req_matches(x, h, b), layout_lenient(h), b.len() >= h.body_length,
+    ensures req_wf(req_view(x)),
+{
+}
